@@ -105,8 +105,140 @@ pub uninterp spec fn cfg_fmt_max_integer_padding() -> usize;
 /// result (unscaled magnitude, scale) of the Newton reciprocal on a magnitude: NOT specified (accuracy undecided)
 pub uninterp spec fn inv_mag_spec(n: int, s: int, p: u64, m: RoundingMode) -> (int, int);
 
-/// result of the numeric core of sqrt: NOT specified (accuracy undecided)
-pub uninterp spec fn sqrt_mag_spec(n: int, s: int, p: u64, m: RoundingMode) -> (int, int);
+/// floor square root
+pub open spec fn is_isqrt(r: int, x: int) -> bool { r >= 0 && r * r <= x && x < (r + 1) * (r + 1) }
+/// number of zeros the square-root core appends to an nd-digit integer at scale s for precision p: enough for 2(p+5) digits,
+/// plus one if that leaves an odd scale
+pub open spec fn sqrt_shift(nd: int, s: int, p: int) -> int {
+    let e0 = if 2 * (p + 5) > nd { 2 * (p + 5) - nd } else { 0 };
+    e0 + (if (s + e0) % 2 == 0 { 0int } else { 1int })
+}
+/// THE REAL SQUARE ROOT of the integer n >= 0, ROUNDED at the decimal position 10^t under (mode, neg), over integers only
+/// (same construction as cbrt_round_real: exactness  n == (q*10^t)^2,  midpoint test  4n  vs  ((2q+1)*10^t)^2 )
+pub open spec fn sqrt_round_real(n: int, t: int, mode: RoundingMode, neg: bool, q: int) -> int {
+    let pw = pow10(t);
+    let lo = q * pw;
+    let h2 = (2 * q + 1) * pw;
+    if n == lo * lo { q }
+    else if round_up(mode, neg, cmp3(4 * n, h2 * h2), q % 2 == 1) { q + 1 } else { q }
+}
+/// what the square-root core returns for the integer nv > 0 at scale s:  with N = nv * 10^e (e = sqrt_shift), R = floor(sqrt(N)),
+/// t = digits(R) - p > 0:  the REAL square root of N rounded at 10^t (sqrt_round_real) at scale (s + e)/2 - t, i.e. the real square
+/// root of nv * 10^-s rounded to p significant digits (p + 1 after a carry to a power of ten) under the mode
+pub open spec fn sqrt_mag_post(nv: int, s: int, p: int, mode: RoundingMode, ri: int, rs: int) -> bool {
+    let e = sqrt_shift(ndigits(nv), s, p);
+    exists|r: int| #[trigger] is_isqrt(r, nv * pow10(e)) && ndigits(r) > p
+        && ri == sqrt_round_real(nv * pow10(e), ndigits(r) - p, mode, false, r / pow10(ndigits(r) - p))
+        && rs == (s + e) / 2 - (ndigits(r) - p)
+}
+pub proof fn lemma_square_mono(a: int, b: int)
+    requires 0 <= a <= b
+    ensures a * a <= b * b
+{
+    assert(a * a <= b * b) by (nonlinear_arith) requires 0 <= a <= b;
+}
+pub proof fn lemma_square_strict_mono(a: int, b: int)
+    requires 0 <= a < b
+    ensures a * a < b * b
+{
+    assert(a * a < b * b) by (nonlinear_arith) requires 0 <= a < b;
+}
+pub proof fn lemma_isqrt_unique(r1: int, r2: int, x: int)
+    requires is_isqrt(r1, x), is_isqrt(r2, x)
+    ensures r1 == r2
+{
+    if r1 < r2 { lemma_square_mono(r1 + 1, r2); }
+    if r2 < r1 { lemma_square_mono(r2 + 1, r1); }
+}
+/// (R+1)^2 > N >= b^2  ==>  R >= b
+pub proof fn lemma_square_root_lower(r: int, n: int, b: int)
+    requires r >= 0, b >= 0, n < (r + 1) * (r + 1), n >= b * b
+    ensures r >= b
+{
+    if r < b { lemma_square_mono(r + 1, b); }
+}
+pub proof fn lemma_sqrt_mid(n: int, r: int, q: int, rr: int, pw: int)
+    requires is_isqrt(r, n), r == pw * q + rr, 0 <= rr < pw, q >= 0, pw % 2 == 0, pw > 0
+    ensures ({
+        let st = if r * r == n { 0int } else { 1int };
+        let h2 = (2 * q + 1) * pw;
+        cmp3(2 * (10 * rr + st), 10 * pw) == cmp3(4 * n, h2 * h2)
+    })
+{
+    let st = if r * r == n { 0int } else { 1int };
+    let h2 = (2 * q + 1) * pw;
+    assert(2 * r - h2 == 2 * rr - pw) by (nonlinear_arith) requires r == pw * q + rr, h2 == (2 * q + 1) * pw;
+    assert((2 * r) * (2 * r) == 4 * (r * r)) by (nonlinear_arith);
+    assert((2 * (r + 1)) * (2 * (r + 1)) == 4 * ((r + 1) * (r + 1))) by (nonlinear_arith);
+    if 2 * rr < pw {
+        assert(2 * rr <= pw - 2);
+        lemma_square_mono(2 * (r + 1), h2);
+    } else if 2 * rr > pw {
+        assert(2 * rr >= pw + 2);
+        assert(h2 >= 0) by (nonlinear_arith) requires h2 == (2 * q + 1) * pw, q >= 0, pw > 0;
+        lemma_square_strict_mono(h2, 2 * r);
+    } else {
+        assert(2 * r == h2);
+    }
+}
+pub proof fn lemma_sqrt_exact(n: int, r: int, q: int, rr: int, pw: int)
+    requires is_isqrt(r, n), r == pw * q + rr, 0 <= rr < pw, q >= 0, pw > 0
+    ensures ({ let lo = q * pw; (n == lo * lo) == (rr == 0 && r * r == n) })
+{
+    let lo = q * pw;
+    assert(lo == pw * q) by (nonlinear_arith) requires lo == q * pw;
+    assert(lo >= 0) by (nonlinear_arith) requires lo == q * pw, q >= 0, pw > 0;
+    if n == lo * lo {
+        lemma_square_strict_mono(lo, lo + 1);
+        assert(is_isqrt(lo, n));
+        lemma_isqrt_unique(lo, r, n);
+    }
+}
+/// the floor root R with a sticky digit rounds exactly like the real root:
+/// round_mag(10*R + (exact ? 0 : 1), t + 1) == sqrt_round_real(N, t, .., R / 10^t)
+pub proof fn lemma_sqrt_sticky(n: int, r: int, t: int, mode: RoundingMode, neg: bool)
+    requires is_isqrt(r, n), t >= 1
+    ensures round_mag(10 * r + (if r * r == n { 0int } else { 1int }), t + 1, mode, neg) == sqrt_round_real(n, t, mode, neg, r / pow10(t))
+{
+    let pw = pow10(t);
+    lemma_pow10_pos(t); lemma_pow10_pos(t - 1); lemma_pow10_succ(t - 1); lemma_pow10_succ(t);
+    let q = r / pw; let rr = r % pw;
+    lemma_fundamental_div_mod(r, pw);
+    assert(q >= 0) by { lemma_div_pos_is_pos(r, pw); }
+    let st = if r * r == n { 0int } else { 1int };
+    let v = 10 * r + st;
+    let k = pow10(t + 1);
+    let tt = 10 * rr + st;
+    assert(v == q * k + tt) by (nonlinear_arith) requires v == 10 * r + st, r == pw * q + rr, k == 10 * pw, tt == 10 * rr + st;
+    lemma_fundamental_div_mod_converse(v, k, q, tt);
+    assert(pw % 2 == 0) by { assert(pw == 2 * (5 * pow10(t - 1))); }
+    lemma_sqrt_mid(n, r, q, rr, pw);
+    lemma_sqrt_exact(n, r, q, rr, pw);
+    assert((tt == 0) == (rr == 0 && st == 0));
+}
+/// appending a zero digit below does not change a rounding one place higher up
+pub proof fn lemma_round_mag_times10(x: int, k: int, mode: RoundingMode, neg: bool)
+    requires x >= 0, k >= 0
+    ensures round_mag(10 * x, k + 1, mode, neg) == round_mag(x, k, mode, neg)
+{
+    let pk = pow10(k);
+    lemma_pow10_pos(k); lemma_pow10_succ(k);
+    let q = x / pk; let t = x % pk;
+    lemma_fundamental_div_mod(x, pk);
+    assert(10 * x == q * (10 * pk) + 10 * t) by (nonlinear_arith) requires x == pk * q + t;
+    lemma_fundamental_div_mod_converse(10 * x, 10 * pk, q, 10 * t);
+    assert(cmp3(2 * (10 * t), 10 * pk) == cmp3(2 * t, pk));
+}
+/// a sticky digit adds exactly one decimal digit
+pub proof fn lemma_ndigits_sticky(r: int)
+    requires r >= 1
+    ensures ndigits(10 * r + 1) == ndigits(r) + 1
+{
+    let d = ndigits(r);
+    lemma_ndigits_bounds(r);
+    lemma_pow10_succ(d - 1); lemma_pow10_succ(d);
+    lemma_ndigits_unique(10 * r + 1, d + 1);
+}
 /// floor cube root
 pub open spec fn is_icbrt(r: int, x: int) -> bool { r >= 0 && r * r * r <= x && x < (r + 1) * (r + 1) * (r + 1) }
 /// number of zeros the cube-root core appends to an nd-digit integer at scale s for precision p: enough for 3(p+4) digits,
@@ -116,14 +248,25 @@ pub open spec fn cbrt_shift(nd: int, s: int, p: int) -> int {
     let m3 = (s + e0) % 3;
     e0 + (if m3 == 0 { 0 } else { 3 - m3 })
 }
-/// what the cube-root core returns for the magnitude nv > 0 at scale s:  with N = nv * 10^e (e = cbrt_shift) and
-/// R = floor(cbrt(N)), the result is sign * (R rounded to p digits by the mode table) at scale (s + e)/3 - (digits(R) - p).
-/// NOTE: this is the rounding of the FLOOR root, not of the real cube root: the remainder N - R^3 is not looked at, which
-/// is the known finding of C11 (an inexact root whose dropped digits are all zero is rounded as if it were exact).
+/// THE REAL CUBE ROOT of the integer n > 0, ROUNDED at the decimal position 10^t under (mode, neg), stated over integers only:
+/// with q = floor(cbrt(n) / 10^t)  (given as argument, pinned by  (q*10^t)^3 <= n < ((q+1)*10^t)^3 )
+///   * the root is exactly q * 10^t            iff  n == (q * 10^t)^3            -> q, no rounding
+///   * the root is below / at / above the midpoint (q + 1/2) * 10^t   iff  8n  <  /  ==  /  >  ((2q+1) * 10^t)^3
+///     (x -> x^3 is strictly monotonic), and the mode table round_up decides between q and q + 1 exactly as for round_mag.
+pub open spec fn cbrt_round_real(n: int, t: int, mode: RoundingMode, neg: bool, q: int) -> int {
+    let pw = pow10(t);
+    let lo = q * pw;
+    let h2 = (2 * q + 1) * pw;
+    if n == lo * lo * lo { q }
+    else if round_up(mode, neg, cmp3(8 * n, h2 * h2 * h2), q % 2 == 1) { q + 1 } else { q }
+}
+/// what the cube-root core returns for the magnitude nv > 0 at scale s:  with N = nv * 10^e (e = cbrt_shift), R = floor(cbrt(N)),
+/// t = digits(R) - p > 0:  sign * (the REAL cube root of N rounded at 10^t, see cbrt_round_real) at scale (s + e)/3 - t,
+/// i.e. the real cube root of nv * 10^-s rounded to p significant digits (p + 1 after a carry) under the mode, on the signed value.
 pub open spec fn cbrt_mag_post(nv: int, s: int, p: int, mode: RoundingMode, sign: Sign, ri: int, rs: int) -> bool {
     let e = cbrt_shift(ndigits(nv), s, p);
     exists|r: int| #[trigger] is_icbrt(r, nv * pow10(e)) && ndigits(r) > p
-        && ri == sgn(sign) * round_mag(r, ndigits(r) - p, mode, sign == Sign::Minus)
+        && ri == sgn(sign) * cbrt_round_real(nv * pow10(e), ndigits(r) - p, mode, sign == Sign::Minus, r / pow10(ndigits(r) - p))
         && rs == (s + e) / 3 - (ndigits(r) - p)
 }
 pub open spec fn cbrt_core_post(i: int, s: int, p: int, m: RoundingMode, ri: int, rs: int) -> bool {
@@ -150,6 +293,85 @@ pub proof fn lemma_pow10_cube(k: int)
     ensures pow10(3 * k) == pow10(k) * pow10(k) * pow10(k)
 {
     lemma_pow10_add(k, k); lemma_pow10_add(2 * k, k);
+}
+pub proof fn lemma_cube_strict_mono(a: int, b: int)
+    requires 0 <= a < b
+    ensures a * a * a < b * b * b
+{
+    assert(a * a * a < b * b * b) by (nonlinear_arith) requires 0 <= a < b;
+}
+pub proof fn lemma_icbrt_unique(r1: int, r2: int, x: int)
+    requires is_icbrt(r1, x), is_icbrt(r2, x)
+    ensures r1 == r2
+{
+    if r1 < r2 { lemma_cube_mono(r1 + 1, r2); }
+    if r2 < r1 { lemma_cube_mono(r2 + 1, r1); }
+}
+pub proof fn lemma_cube_double(x: int)
+    ensures (2 * x) * (2 * x) * (2 * x) == 8 * (x * x * x)
+{
+    assert((2 * x) * (2 * x) * (2 * x) == 8 * (x * x * x)) by (nonlinear_arith);
+}
+/// midpoint test of the cube root: with r = pw*q + rr (0 <= rr < pw, pw even), h2 = (2q+1)*pw:
+/// 2*(10*rr + st) vs 10*pw  decides exactly like  8n vs h2^3   (st = 0 iff r^3 == n)
+pub proof fn lemma_cbrt_mid(n: int, r: int, q: int, rr: int, pw: int)
+    requires is_icbrt(r, n), r == pw * q + rr, 0 <= rr < pw, q >= 0, pw % 2 == 0, pw > 0
+    ensures ({
+        let st = if r * r * r == n { 0int } else { 1int };
+        let h2 = (2 * q + 1) * pw;
+        cmp3(2 * (10 * rr + st), 10 * pw) == cmp3(8 * n, h2 * h2 * h2)
+    })
+{
+    let st = if r * r * r == n { 0int } else { 1int };
+    let h2 = (2 * q + 1) * pw;
+    assert(2 * r - h2 == 2 * rr - pw) by (nonlinear_arith) requires r == pw * q + rr, h2 == (2 * q + 1) * pw;
+    lemma_cube_double(r); lemma_cube_double(r + 1);
+    if 2 * rr < pw {
+        assert(2 * rr <= pw - 2);
+        lemma_cube_mono(2 * (r + 1), h2);
+    } else if 2 * rr > pw {
+        assert(2 * rr >= pw + 2);
+        assert(h2 >= 0) by (nonlinear_arith) requires h2 == (2 * q + 1) * pw, q >= 0, pw > 0;
+        lemma_cube_strict_mono(h2, 2 * r);
+    } else {
+        assert(2 * r == h2);
+    }
+}
+/// exactness test of the cube root: n == (q*pw)^3  iff  rr == 0 and r^3 == n
+pub proof fn lemma_cbrt_exact(n: int, r: int, q: int, rr: int, pw: int)
+    requires is_icbrt(r, n), r == pw * q + rr, 0 <= rr < pw, q >= 0, pw > 0
+    ensures ({ let lo = q * pw; (n == lo * lo * lo) == (rr == 0 && r * r * r == n) })
+{
+    let lo = q * pw;
+    assert(lo == pw * q) by (nonlinear_arith) requires lo == q * pw;
+    assert(lo >= 0) by (nonlinear_arith) requires lo == q * pw, q >= 0, pw > 0;
+    if n == lo * lo * lo {
+        lemma_cube_strict_mono(lo, lo + 1);
+        assert(is_icbrt(lo, n));
+        lemma_icbrt_unique(lo, r, n);
+    }
+}
+/// the floor root R with a sticky digit rounds exactly like the real root:
+/// round_mag(10*R + (exact ? 0 : 1), t + 1) == cbrt_round_real(N, t, .., R / 10^t)
+pub proof fn lemma_cbrt_sticky(n: int, r: int, t: int, mode: RoundingMode, neg: bool)
+    requires is_icbrt(r, n), t >= 1
+    ensures round_mag(10 * r + (if r * r * r == n { 0int } else { 1int }), t + 1, mode, neg) == cbrt_round_real(n, t, mode, neg, r / pow10(t))
+{
+    let pw = pow10(t);
+    lemma_pow10_pos(t); lemma_pow10_pos(t - 1); lemma_pow10_succ(t - 1); lemma_pow10_succ(t);
+    let q = r / pw; let rr = r % pw;
+    lemma_fundamental_div_mod(r, pw);
+    assert(q >= 0) by { lemma_div_pos_is_pos(r, pw); }
+    let st = if r * r * r == n { 0int } else { 1int };
+    let v = 10 * r + st;
+    let k = pow10(t + 1);
+    let tt = 10 * rr + st;
+    assert(v == q * k + tt) by (nonlinear_arith) requires v == 10 * r + st, r == pw * q + rr, k == 10 * pw, tt == 10 * rr + st;
+    lemma_fundamental_div_mod_converse(v, k, q, tt);
+    assert(pw % 2 == 0) by { assert(pw == 2 * (5 * pow10(t - 1))); }
+    lemma_cbrt_mid(n, r, q, rr, pw);
+    lemma_cbrt_exact(n, r, q, rr, pw);
+    assert((tt == 0) == (rr == 0 && st == 0));
 }
 /// n >= 10^k (n >= 0)  ==>  n has more than k digits
 pub proof fn lemma_ndigits_lower(n: int, k: int)
@@ -205,7 +427,7 @@ pub proof fn lemma_tdiv3(x: int)
 pub open spec fn sqrt_post(i: int, s: int, p: u64, m: RoundingMode, ret: Option<BigDecimal>) -> bool {
     if i == 0 || same_val(i, s, 1, 0) { ret.is_some() && ret.unwrap().i() == i && ret.unwrap().s() == s }
     else if i < 0 { ret.is_none() }
-    else { ret.is_some() && ret.unwrap().i() == sqrt_mag_spec(i, s, p, m).0 && ret.unwrap().s() == sqrt_mag_spec(i, s, p, m).1 }
+    else { ret.is_some() && sqrt_mag_post(i, s, p as int, m, ret.unwrap().i(), ret.unwrap().s()) }
 }
 pub open spec fn cbrt_post(i: int, s: int, p: u64, m: RoundingMode, ri: int, rs: int) -> bool {
     if i == 0 || same_val(i, s, 1, 0) { ri == i && rs == s }
